@@ -1,6 +1,7 @@
 package verifsim
 
 import (
+	"math/rand"
 	"bufio"
 	"encoding/json"
 	"fmt"
@@ -63,6 +64,8 @@ func runJob(t *testing.T, job *Job) (vd *Verdict) {
 				}
 			}()
 			ResetHooks(sc)
+			// heimdall's retry jitter draws from math/rand's global source, which its init() seeds from the wall clock
+			rand.Seed(int64(sc.Seed)) //nolint:staticcheck
 			SetKnown(job.Known)
 			vd = Execute(sc)
 		})
